@@ -389,12 +389,7 @@ def segment_indices(
         while True:
             idx1 = idxs_nxt[idx]
             pit = idx1 == idx
-            if (
-                idx1 == mv
-                or pit
-                or (mask is not None and mask[idx1] == False)
-                or (max_len > 0 and len(idxs) == max_len)
-            ):
+            if idx1 == mv or pit or (mask is not None and mask[idx1] == False):
                 break
             idxs.append(idx1)
             if outlets[idx1]:  # include next outlet in stream
@@ -402,8 +397,21 @@ def segment_indices(
             # next iter
             idx = idx1
         # append indices to list of stream segments
-        if len(idxs) > 1:
-            streams.append(np.array(idxs, dtype=idxs_nxt.dtype))
+        l = len(idxs)
+        if l > 1:
+            if l > max_len > 0:
+                n, k = l, 1
+                if (l / max_len) > 1.5:
+                    k = round(l / max_len)
+                    n = round(l / k)
+                for j in range(k):  # split into k segments with overlapping point
+                    if j + 1 == k:
+                        streams.append(np.array(idxs[j * n :], dtype=idxs_nxt.dtype))
+                    else:
+                        _idxs = idxs[j * n : n * (j + 1) + 1]
+                        streams.append(np.array(_idxs, dtype=idxs_nxt.dtype))
+            else:
+                streams.append(np.array(idxs, dtype=idxs_nxt.dtype))
         # changed in v0.5.2: add zero-length line at pits
         if pit:
             streams.append(np.array([idx1, idx1], dtype=idxs_nxt.dtype))
